@@ -56,12 +56,29 @@ Theorem C16_prim_div_unsigned_pos : forall hi a b, 0 <= a <= hi -> 0 < b -> prim
 Proof. exact prim_div_unsigned_pos. Qed.
 Print Assumptions C16_prim_div_unsigned_pos.
 
-(** the as-is mechanisms never leave the documented table outside the open finding classes *)
+(** the float guard sequences never leave the documented table (no finding class excluded since the repair of ln) *)
 Theorem C16_float_asis_within_spec : forall B o prec x y n out,
-  known (KFloat B o prec x y n) = None -> In out (float_asis B o prec x y n) ->
-  accepts (KFloat B o prec x y n) out = true.
+  In out (float_asis B o prec x y n) -> accepts (KFloat B o prec x y n) out = true.
 Proof. exact float_asis_within_spec. Qed.
 Print Assumptions C16_float_asis_within_spec.
+
+(** ... and, except for powf and the total operations, are exact: return iff no documented precondition is violated,
+    otherwise the first listed reason *)
+Theorem C16_float_guards_exact : forall B o prec x y n,
+  match o with FoPowf | FoTotal => False | _ => True end ->
+  float_asis B o prec x y n = [first_documented (KFloat B o prec x y n)].
+Proof. exact float_guards_exact. Qed.
+Print Assumptions C16_float_guards_exact.
+
+(** operator-form division (repr_div entered with unshrunk operands) *)
+Theorem C16_opdiv_asis_within_spec : forall B prec x y out,
+  known (KFloatOpDiv B prec x y) = None -> In out (opdiv_asis B prec x y) -> accepts (KFloatOpDiv B prec x y) out = true.
+Proof. exact opdiv_asis_within_spec. Qed.
+Print Assumptions C16_opdiv_asis_within_spec.
+
+Theorem C16_opdiv_valid_operands_clean : forall B prec xs xe y, ndig B xs <= prec -> opdiv_long B prec (Fin xs xe) y = false.
+Proof. exact opdiv_valid_operands_clean. Qed.
+Print Assumptions C16_opdiv_valid_operands_clean.
 
 Theorem C16_prim_asis_within_spec : forall c out,
   match c with KPrimRem _ _ _ _ | KPrimDiv _ _ _ _ | KPrimStd _ _ _ => True | _ => False end ->
@@ -83,10 +100,28 @@ Theorem C16_prim_div_unfit_refuted :
 Proof. exact prim_div_unfit_refuted. Qed.
 Print Assumptions C16_prim_div_unfit_refuted.
 
+(** finding ln_nonpositive, repaired by 60b59c4: the guard sequence before the repair was refused by the table on every
+    outcome; today's sequence panics as documented *)
 Theorem C16_ln_nonpositive_refuted :
-  forall o, In o (asis (KFloat 2 FoLn 17 (Fin (-1) (-7)) (Fin 1 0) 0)) -> accepts (KFloat 2 FoLn 17 (Fin (-1) (-7)) (Fin 1 0) 0) o = false.
+  forall o, In o (ln_asis_before_60b59c4 2 false 17 (Fin (-1) (-7))) -> accepts (KFloat 2 FoLn 17 (Fin (-1) (-7)) (Fin 1 0) 0) o = false.
 Proof. exact ln_nonpositive_refuted. Qed.
 Print Assumptions C16_ln_nonpositive_refuted.
+
+Theorem C16_ln_nonpositive_fixed :
+  asis (KFloat 2 FoLn 17 (Fin (-1) (-7)) (Fin 1 0) 0) = [OPanic (Doc LogOperand)] /\
+  asis (KFloat 10 FoLn 5 (Fin 0 0) (Fin 1 0) 0) = [OPanic (Doc LogOperand)] /\
+  asis (KFloat 10 FoLn1p 5 (Fin (-1) 0) (Fin 1 0) 0) = [OPanic (Doc LogOperand)] /\
+  asis (KFloat 10 FoLn1p 5 (Fin (-5) (-1)) (Fin 1 0) 0) = [ORet].
+Proof. exact ln_nonpositive_fixed. Qed.
+Print Assumptions C16_ln_nonpositive_fixed.
+
+Theorem C16_float_operand_exceeds_precision_refuted :
+  known (KFloatOpDiv 2 2 (Fin 31 0) (Fin 3 0)) = Some TFloatOperandExceedsPrecision /\
+  asis (KFloatOpDiv 2 2 (Fin 31 0) (Fin 3 0)) = [OPanic (Doc Undocumented); ORet] /\
+  accepts (KFloatOpDiv 2 2 (Fin 31 0) (Fin 3 0)) (OPanic (Doc Undocumented)) = false /\
+  opdiv_long 10 1 (Fin 1000 0) (Fin 3 0) = false.
+Proof. exact float_operand_exceeds_precision_refuted. Qed.
+Print Assumptions C16_float_operand_exceeds_precision_refuted.
 
 Theorem C16_with_base_precision_zero_refuted :
   auto_prec_zero 3 10 1 = true /\ with_base_asis 3 10 0 (Fin 1 1000) = OPanic (Doc UnlimitedPrecision)
@@ -103,3 +138,308 @@ Print Assumptions C16_farey_walk_linear.
 Theorem C16_farey_integer_linear : forall n L, 2 <= L -> farey_up_asis (Z.to_nat (L - 1)) n 1 L = OHang.
 Proof. exact farey_integer_linear. Qed.
 Print Assumptions C16_farey_integer_linear.
+
+(** * Termination obligations discharged in the developments of the other properties (imported, not re-proved):
+    every fuelled loop of the models returns a value under an explicit fuel bound, every parser / deserialiser
+    model returns a value or an error. *)
+From Dashu Require Words Ratio.RatArithModel Ratio.RatArithConst Ratio.SimplestSpec Ratio.SimplestModel Ratio.SimplestProof Ratio.SimplestAsis Ratio.FareyProof
+  Int.DivWordModel Int.DivWordProofs Int.DivLargeProofs Int.DivDCTotal Int.IoSpec Int.IoModel Int.IoPow2 Int.IoRadix
+  Serde.WireModel Serde.WireProofs Macro.LitModel Macro.LitGenProofs
+  Int.GrlSpec Int.GrlModel Int.GrlRootProof Int.GrlLogProof Int.GrlRemoveProof Int.GrlGcdProof
+  Int.ModRingSpec Int.ModRingSpecProofs Int.ModRingPowModel Int.ModRingPowProofs.
+
+(** C04: the gcd loop of the const constructors (rational/src/repr.rs) never runs out of its fuel *)
+Theorem C16_cgcd_fuel_enough : forall n d : Z, 0 < d ->
+  RatArithModel.cgcd_loop (RatArithModel.cgcd_fuel d) d (n mod d) <> None.
+Proof. exact RatArithConst.cgcd_fuel_enough. Qed.
+Print Assumptions C16_cgcd_fuel_enough.
+
+(** C18: simplest_in returns a value for every pair of end points (no panic, never out of fuel) *)
+Theorem C16_simplest_in_total_distinct : forall l u, 0 < snd l -> 0 < snd u -> ~ SimplestProof.fval_eq l u ->
+  exists r, SimplestModel.simplest_in_asis l u = Ok r /\ Z.gcd (fst r) (snd r) = 1 /\
+    ((SimplestProof.fval_lt l u /\ SimplestProof.simplest_between l u r) \/ (SimplestProof.fval_lt u l /\ SimplestProof.simplest_between u l r)).
+Proof. exact SimplestAsis.simplest_in_asis_optimal. Qed.
+Print Assumptions C16_simplest_in_total_distinct.
+
+Theorem C16_simplest_in_total_equal : forall l u, 0 < snd l -> 0 < snd u -> SimplestProof.fval_eq l u ->
+  SimplestModel.simplest_in_asis l u = Ok (SimplestSpec.freduce l).
+Proof. exact SimplestAsis.simplest_in_asis_equal. Qed.
+Print Assumptions C16_simplest_in_total_equal.
+
+(** C18: farey_neighbors stops within its limit + 1 iterations on its domain *)
+Theorem C16_farey_neighbors_total : forall (x : Z * Z) (L : Z), 1 <= L -> L < snd x -> Z.gcd (fst x) (snd x) = 1 ->
+  Z.abs (fst x) <= snd x ->
+  exists l r, SimplestModel.farey_neighbors_asis x L = Ok (l, r) /\ FareyProof.farey_pair L x l r.
+Proof. exact FareyProof.farey_neighbors_asis_ok. Qed.
+Print Assumptions C16_farey_neighbors_total.
+
+(** C02: the correction loop of the divide-and-conquer division returns within the fuel that bounds the deficit *)
+Theorem C16_dc_fix_loop_total : forall w : Z, 0 < w -> forall (rhs : list Z) (n m : nat) (X : Z),
+  Words.wf w rhs -> length rhs = n -> 0 < Words.value w rhs ->
+  forall (fuel : nat) (rem q : list Z) (ro qo : Z),
+  Words.wf w rem -> length rem = n -> Words.wf w q -> length q = m ->
+  Words.value w rem + Words.B w ^ Z.of_nat n * ro = X - (Words.value w q + Words.B w ^ Z.of_nat m * qo) * Words.value w rhs ->
+  - Z.of_nat fuel * Words.value w rhs <= X - (Words.value w q + Words.B w ^ Z.of_nat m * qo) * Words.value w rhs ->
+  exists r, DivWordModel.dc_fix_loop w fuel rem q rhs ro qo = Ok r.
+Proof. exact DivDCTotal.dc_fix_loop_total. Qed.
+Print Assumptions C16_dc_fix_loop_total.
+
+(** C02: the recursion div_rem_small_quotient of Burnikel-Ziegler returns (no panic, no 'not enough memory', fuel = recursion depth) *)
+Theorem C16_dc_small_quotient_total : forall w : Z, 0 < w -> forall div3by2 : Z -> Z -> Z -> Z * Z,
+  (forall d lo hi : Z, DivWordProofs.norm2 w d -> 0 <= lo < Words.B w -> 0 <= hi < d ->
+     div3by2 d lo hi = ((lo + Words.B w * hi) / d, (lo + Words.B w * hi) mod d)) ->
+  forall mul_sub : list Z -> list Z -> list Z -> list Z * Z,
+  (forall (c a b c' : list Z) (k : Z), Words.wf w c -> Words.wf w a -> Words.wf w b -> length c = (length a + length b)%nat ->
+     mul_sub c a b = (c', k) ->
+     Words.wf w c' /\ length c' = length c /\ Words.value w c' + Words.B w ^ len c * k = Words.value w c - Words.value w a * Words.value w b) ->
+  forall T : nat, (2 <= T)%nat ->
+  forall (fuel : nat) (lhs rhs : list Z) (x : result (list Z * bool)),
+  DivLargeProofs.kernel_pre w lhs rhs -> (length lhs - length rhs <= length rhs)%nat -> (length lhs - length rhs < fuel)%nat ->
+  DivWordModel.dc_small_quotient w div3by2 mul_sub T fuel lhs rhs = x ->
+  exists (res : list Z) (o : bool), x = Ok (res, o).
+Proof. exact DivDCTotal.dc_small_quotient_total. Qed.
+Print Assumptions C16_dc_small_quotient_total.
+
+(** C02: the division kernel (schoolbook below the threshold, divide-and-conquer above) returns the quotient and remainder
+    for every fuel above the divisor length *)
+Theorem C16_div_rem_in_place_total : forall w : Z, 0 < w -> forall div3by2 : Z -> Z -> Z -> Z * Z,
+  (forall d lo hi : Z, DivWordProofs.norm2 w d -> 0 <= lo < Words.B w -> 0 <= hi < d ->
+     div3by2 d lo hi = ((lo + Words.B w * hi) / d, (lo + Words.B w * hi) mod d)) ->
+  forall mul_sub : list Z -> list Z -> list Z -> list Z * Z,
+  (forall (c a b c' : list Z) (k : Z), Words.wf w c -> Words.wf w a -> Words.wf w b -> length c = (length a + length b)%nat ->
+     mul_sub c a b = (c', k) ->
+     Words.wf w c' /\ length c' = length c /\ Words.value w c' + Words.B w ^ len c * k = Words.value w c - Words.value w a * Words.value w b) ->
+  forall T : nat, (2 <= T)%nat ->
+  forall (fuel : nat) (lhs rhs : list Z), DivLargeProofs.kernel_pre w lhs rhs -> (length rhs < fuel)%nat ->
+  exists (res : list Z) (c : bool),
+    DivWordModel.div_rem_in_place w div3by2 mul_sub T fuel lhs rhs = Ok (res, c) /\ DivLargeProofs.kernel_post w lhs rhs res c.
+Proof. exact DivDCTotal.div_rem_in_place_correct. Qed.
+Print Assumptions C16_div_rem_in_place_total.
+
+(** C02: large division (normalise, kernel, denormalise) returns floor quotient and remainder: no panic for a non-zero divisor *)
+Theorem C16_div_rem_large_total : forall w : Z, 0 < w -> forall div3by2 : Z -> Z -> Z -> Z * Z,
+  (forall d lo hi : Z, DivWordProofs.norm2 w d -> 0 <= lo < Words.B w -> 0 <= hi < d ->
+     div3by2 d lo hi = ((lo + Words.B w * hi) / d, (lo + Words.B w * hi) mod d)) ->
+  forall mul_sub : list Z -> list Z -> list Z -> list Z * Z,
+  (forall (c a b c' : list Z) (k : Z), Words.wf w c -> Words.wf w a -> Words.wf w b -> length c = (length a + length b)%nat ->
+     mul_sub c a b = (c', k) ->
+     Words.wf w c' /\ length c' = length c /\ Words.value w c' + Words.B w ^ len c * k = Words.value w c - Words.value w a * Words.value w b) ->
+  forall T : nat, (2 <= T)%nat ->
+  forall (fuel : nat) (lhs rhs : list Z), Words.wf w lhs -> Words.wf w rhs -> (2 <= length rhs)%nat -> (length rhs <= length lhs)%nat ->
+  0 < DivWordModel.highest_word w rhs -> (length rhs < fuel)%nat ->
+  exists q r : list Z, DivWordModel.div_rem_large w div3by2 mul_sub T fuel lhs rhs = Ok (q, r) /\
+    Words.value w q = Words.value w lhs / Words.value w rhs /\ Words.value w r = Words.value w lhs mod Words.value w rhs /\
+    Words.wf w q /\ Words.wf w r /\ length r = length rhs /\ length q = (length lhs - length rhs + 1)%nat.
+Proof. exact DivDCTotal.div_rem_large_correct. Qed.
+Print Assumptions C16_div_rem_large_total.
+
+(** C12: Newton's iteration of nth_root returns for every fuel above its starting guess *)
+Theorem C16_newton_root_terminates : forall x n : Z, 0 < x -> 2 <= n -> forall fuel : nat,
+  GrlModel.newton_g0 x n < Z.of_nat fuel -> exists r : Z, GrlModel.newton_root fuel x n = Ok r.
+Proof. exact GrlRootProof.newton_root_terminates. Qed.
+Print Assumptions C16_newton_root_terminates.
+
+(** C12: nth_root panics only for the zeroth root; IBig::nth_root exactly on the documented set *)
+Theorem C16_nth_root_panics : forall (fuel : nat) (x n : Z) (r : reason),
+  GrlModel.nth_root_asis fuel x n = Panic r -> r = RootZeroth /\ n = 0.
+Proof. exact GrlRootProof.nth_root_asis_panics. Qed.
+Print Assumptions C16_nth_root_panics.
+
+Theorem C16_inth_root_panics : forall (fuel : nat) (x n : Z) (r : reason),
+  GrlModel.inth_root_asis fuel x n = Panic r -> GrlSpec.root_panic n x = Some r.
+Proof. exact GrlRootProof.inth_root_asis_panics. Qed.
+Print Assumptions C16_inth_root_panics.
+
+(** C12: the correction loops of ilog return within (target - estimate) + 1 steps *)
+Theorem C16_log_large_loop_terminates : forall target base : Z, 2 <= base -> 1 <= target ->
+  forall (fuel : nat) (est est_pow : Z), 1 <= est_pow -> Z.max 0 (target - est_pow) < Z.of_nat fuel ->
+  exists r : Z * Z, GrlModel.log_large_loop fuel target base est est_pow = Ok r.
+Proof. exact GrlLogProof.log_large_loop_terminates. Qed.
+Print Assumptions C16_log_large_loop_terminates.
+
+Theorem C16_log_word_base_loop_terminates : forall target base : Z, 2 <= base ->
+  forall (fuel : nat) (est est_pow : Z), 1 <= est_pow -> Z.max 0 (target - est_pow) < Z.of_nat fuel ->
+  exists r : Z * Z, GrlModel.lwb_stage_b fuel target base est est_pow = Ok r.
+Proof. exact GrlLogProof.lwb_stage_b_terminates. Qed.
+Print Assumptions C16_log_word_base_loop_terminates.
+
+(** C12: remove (repeated squaring of the factor, then the descent) never runs out of fuel *)
+Theorem C16_remove_terminates : forall (fuel : nat) (x f : Z), 0 < x -> 2 <= f -> x < Z.of_nat fuel ->
+  GrlModel.remove_asis fuel x f <> OutOfFuel.
+Proof. exact GrlRemoveProof.remove_asis_terminates. Qed.
+Print Assumptions C16_remove_terminates.
+
+(** C12: binary gcd and the extended Euclid loop of the primitive types terminate; they panic only for gcd(0, 0) *)
+Theorem C16_prim_gcd_terminates : forall (fuel : nat) (bits a b : Z), 0 <= a -> 0 <= b -> a + b <= Z.of_nat fuel ->
+  GrlModel.prim_gcd_asis fuel bits a b <> OutOfFuel.
+Proof. exact GrlGcdProof.prim_gcd_asis_terminates. Qed.
+Print Assumptions C16_prim_gcd_terminates.
+
+Theorem C16_prim_gcd_panics : forall (fuel : nat) (bits a b : Z) (r : reason),
+  GrlModel.prim_gcd_asis fuel bits a b = Panic r -> GrlSpec.gcd_spec a b = Panic r.
+Proof. exact GrlGcdProof.prim_gcd_asis_panics. Qed.
+Print Assumptions C16_prim_gcd_panics.
+
+Theorem C16_euclid_ext_terminates : forall (fuel : nat) (last_r r last_s s last_t t : Z), 0 < r -> r < Z.of_nat fuel ->
+  exists res : Z * Z * Z, GrlModel.euclid_ext fuel last_r r last_s s last_t t = Ok res.
+Proof. exact GrlGcdProof.euclid_ext_terminates. Qed.
+Print Assumptions C16_euclid_ext_terminates.
+
+(** C07: the integer parser is total: every text gives the value or the error kind of the specification, whatever the radix *)
+Theorem C16_parse_body_total : forall (w r : Z) (s : list Z), 0 < w -> w mod 2 = 0 -> 2 <= r -> r < IoModel.Bw w ->
+  IoModel.body_asis w r s = IoSpec.body_spec r s.
+Proof. exact IoPow2.body_asis_correct. Qed.
+Print Assumptions C16_parse_body_total.
+
+Theorem C16_from_str_radix_total : forall (w : Z) (sg : bool) (r : Z) (s : list Z), 0 < w -> w mod 2 = 0 -> 36 < IoModel.Bw w ->
+  IoModel.from_str_radix_asis w sg r s = IoSpec.from_str_radix_spec sg r s.
+Proof. exact IoPow2.from_str_radix_asis_correct. Qed.
+Print Assumptions C16_from_str_radix_total.
+
+(** C19: the binary deserialisers return a canonical value or an error on every byte string *)
+Theorem C16_rbig_deserialise_total : forall input : list Z, Words.wf 8 input ->
+  match WireModel.w_rbig_dec true input with
+  | Ok (n, d, rest) => WireModel.rat_canon n d /\ Words.wf 8 rest
+  | Err _ => True
+  | _ => False
+  end.
+Proof. exact WireProofs.w_rbig_dec_total. Qed.
+Print Assumptions C16_rbig_deserialise_total.
+
+Theorem C16_relaxed_deserialise_total : forall input : list Z, Words.wf 8 input ->
+  match WireModel.w_relaxed_dec true input with
+  | Ok (_, d, rest) => 0 < d /\ Words.wf 8 rest
+  | Err _ => True
+  | _ => False
+  end.
+Proof. exact WireProofs.w_relaxed_dec_total. Qed.
+Print Assumptions C16_relaxed_deserialise_total.
+
+Theorem C16_fbig_deserialise_total : forall (B : Z) (input : list Z), 2 <= B -> Words.wf 8 input ->
+  match WireModel.w_fbig_dec true B input with
+  | Some (s, e, p, rest) => WireModel.fbig_canon B s e p /\ Words.wf 8 rest
+  | None => True
+  end.
+Proof. exact WireProofs.w_fbig_dec_total. Qed.
+Print Assumptions C16_fbig_deserialise_total.
+
+(** C20: the gcd loop the literal macros run at compile time has enough fuel *)
+Theorem C16_macro_gcd_loop_fuel : forall (fuel : nat) (y r : Z), 0 <= r < y -> IoSpec.blen y + IoSpec.blen r < Z.of_nat fuel ->
+  LitModel.naive_gcd_loop fuel y r <> None.
+Proof. exact LitGenProofs.naive_gcd_loop_fuel. Qed.
+Print Assumptions C16_macro_gcd_loop_fuel.
+
+(** C13: the sliding-window loop of modular exponentiation returns within (bit index + 1) iterations *)
+Theorem C16_pow_window_loop_total : forall (T : Type) (sqr : T -> T) (mul : T -> T -> T) (R : T -> Z -> Prop),
+  (forall (x : T) (j : Z), 0 <= j -> R x j -> R (sqr x) (2 * j)) ->
+  (forall (x y : T) (j k : Z), 0 <= j -> 0 <= k -> R x j -> R y k -> R (mul x y) (j + k)) ->
+  forall (winf : Z -> Z -> Z -> Z) (raw : T) (wl exp : Z), R raw 1 -> 1 <= wl -> 0 <= exp ->
+  (forall bit : Z, 0 <= bit -> winf exp bit wl = ModRingPowModel.window_val exp bit wl) ->
+  let table := ModRingPowModel.build_table T mul (Z.to_nat (2 ^ (wl - 1) - 1)) raw (sqr raw) in
+  forall (fuel : nat) (bit : Z) (val : T), 0 <= bit -> (Z.to_nat bit < fuel)%nat -> R val (2 * (exp / 2 ^ (bit + 1))) ->
+  exists res : T, ModRingPowModel.window_loop T sqr mul winf fuel raw table wl exp bit val = Ok res /\ R res exp.
+Proof. exact ModRingPowProofs.window_loop_ok. Qed.
+Print Assumptions C16_pow_window_loop_total.
+
+(** C13: the extended Euclid loop of the ring inverse returns within its fuel *)
+Theorem C16_ring_inverse_loop_total : forall (fuel : nat) (m x last_r r last_t t : Z), 0 < m -> 0 <= r < last_r ->
+  last_r * r < 2 ^ Z.of_nat fuel \/ r = 0 ->
+  (last_t * x) mod m = last_r mod m -> (t * x) mod m = r mod m -> Z.gcd last_r r = Z.gcd m x ->
+  0 <= last_t < m -> 0 <= t < m ->
+  exists g u : Z, ModRingSpec.egcd_loop (S fuel) m last_r r last_t t = Ok (g, u) /\
+    g = Z.gcd m x /\ (u * x) mod m = g mod m /\ 0 <= u < m.
+Proof. exact ModRingSpecProofs.egcd_loop_ok. Qed.
+Print Assumptions C16_ring_inverse_loop_total.
+
+(** C02, closed instances (num-modular's 3-by-2 division and C01's multiplication transcribed, no hypothesis but the word size):
+    the division kernel returns for fuel = length + 1; every division entry point returns floor quotient / remainder for a
+    non-zero divisor - never a panic, never out of fuel - and panics with DivideBy0 for a zero divisor; no debug assertion or
+    overflow check inside num-modular's reciprocal division fires under the normalisation precondition *)
+From Dashu Require Int.DivSrcInst Int.DivSrcInstProofs Int.DivNumModular Int.DivNumModularProofs.
+
+Theorem C16_div_kernel_closed : forall w : Z, 8 <= w -> forall lhs rhs : list Z, DivLargeProofs.kernel_pre w lhs rhs ->
+  exists (res : list Z) (c : bool),
+    DivSrcInst.s_div_rem_in_place w (S (length lhs)) lhs rhs = Ok (res, c) /\ DivLargeProofs.kernel_post w lhs rhs res c.
+Proof. exact DivSrcInstProofs.s_div_rem_in_place_correct. Qed.
+Print Assumptions C16_div_kernel_closed.
+
+Theorem C16_division_unconditional : forall w : Z, 8 <= w -> forall a b : Z, 0 <= a -> 0 < b ->
+  DivSrcInst.s_repr_div_rem w a b = Ok (a / b, a mod b) /\
+  DivSrcInst.s_repr_div w a b = Ok (a / b) /\
+  DivSrcInst.s_repr_rem w a b = Ok (a mod b) /\
+  DivSrcInst.s_const_div_rem w a b = DivSrcInst.s_repr_div_rem w a b /\
+  DivSrcInst.s_const_rem w a b = DivSrcInst.s_repr_rem w a b.
+Proof. exact DivSrcInstProofs.s_division_unconditional. Qed.
+Print Assumptions C16_division_unconditional.
+
+Theorem C16_division_zero_divisor : forall w a : Z,
+  DivSrcInst.s_repr_div_rem w a 0 = Panic DivideBy0 /\
+  DivSrcInst.s_repr_rem w a 0 = Panic DivideBy0 /\
+  DivSrcInst.s_const_div_rem w a 0 = Panic DivideBy0 /\
+  DivSrcInst.s_const_rem w a 0 = Panic DivideBy0.
+Proof. exact DivSrcInstProofs.s_zero_divisor. Qed.
+Print Assumptions C16_division_zero_divisor.
+
+Theorem C16_num_modular_checks_hold : forall w : Z, 0 < w ->
+  (forall d : Z, DivWordProofs.norm1 w d -> DivNumModular.nm_invert_word_checks w d = true) /\
+  (forall d : Z, DivWordProofs.norm2 w d -> DivNumModular.nm_invert_double_word_checks w d = true) /\
+  (forall d a : Z, DivWordProofs.norm1 w d -> 0 <= a < d * Words.B w ->
+     DivNumModular.nm_div_rem_2by1_checks w (DivNumModular.nm_2by1_new w d) a = true) /\
+  (forall d lo hi : Z, DivWordProofs.norm2 w d -> 0 <= lo < Words.B w -> 0 <= hi < d ->
+     DivNumModular.nm_div_rem_3by2_checks w (DivNumModular.nm_3by2_new w d) lo hi = true).
+Proof. exact DivNumModularProofs.nm_checks_hold. Qed.
+Print Assumptions C16_num_modular_checks_hold.
+
+(** * The series loops of exp / ln (float/src/exp.rs exp_internal, float/src/log.rs iacoth and ln_internal) on exact rationals:
+    with a stopping threshold bounded below by eps > 0 the loop leaves within an explicit number of steps, because the terms
+    decrease geometrically for the reduced arguments (1/n with n >= 2; |z| <= 1/3; |r| <= 1/2).  Definitions and proofs:
+    Cross/SeriesLoops.v. *)
+From Coq Require Import QArith Qabs.
+From Dashu Require Import Cross.SeriesLoops.
+Open Scope Z_scope.
+
+Theorem C16_iacoth_terminates : forall (eps : Q) (thr : Q -> Q), (forall s : Q, (eps <= thr s)%Q) ->
+  forall (n : Z) (N fuel : nat), 2 <= n -> (1 <= N)%nat ->
+  ((1 / inject_Z n) * qpow ((1 / inject_Z n) * (1 / inject_Z n)) N < eps)%Q -> (N <= fuel)%nat ->
+  iacoth thr fuel n <> None.
+Proof. exact iacoth_terminates. Qed.
+Print Assumptions C16_iacoth_terminates.
+
+Theorem C16_iacoth_terminates_explicit : forall (eps : Q) (thr : Q -> Q), (0 < eps)%Q -> (forall s : Q, (eps <= thr s)%Q) ->
+  forall (n : Z) (fuel : nat), 2 <= n -> (steps_half (1 / inject_Z n)%Q eps <= fuel)%nat -> iacoth thr fuel n <> None.
+Proof. exact iacoth_terminates_explicit. Qed.
+Print Assumptions C16_iacoth_terminates_explicit.
+
+Theorem C16_ln_series_terminates : forall (eps : Q) (thr : Q -> Q), (forall s : Q, (eps <= thr s)%Q) ->
+  forall (z : Q) (N fuel : nat), (1 <= N)%nat -> (Qabs z * qpow (z * z) N < eps)%Q -> (N <= fuel)%nat ->
+  ln_series thr fuel z <> None.
+Proof. exact ln_series_terminates. Qed.
+Print Assumptions C16_ln_series_terminates.
+
+Theorem C16_ln_series_terminates_explicit : forall (eps : Q) (thr : Q -> Q), (0 < eps)%Q -> (forall s : Q, (eps <= thr s)%Q) ->
+  forall (z : Q) (fuel : nat), (Qabs z <= 1 # 3)%Q -> (steps_half (Qabs z) eps <= fuel)%nat -> ln_series thr fuel z <> None.
+Proof. exact ln_series_terminates_explicit. Qed.
+Print Assumptions C16_ln_series_terminates_explicit.
+
+Theorem C16_ln_series_terminates_lt_1 : forall (eps : Q) (thr : Q -> Q), (0 < eps)%Q -> (forall s : Q, (eps <= thr s)%Q) ->
+  forall (z : Q) (fuel : nat), (z * z < 1)%Q -> (steps_geo (Qabs z) (z * z)%Q eps <= fuel)%nat -> ln_series thr fuel z <> None.
+Proof. exact ln_series_terminates_lt_1. Qed.
+Print Assumptions C16_ln_series_terminates_lt_1.
+
+Theorem C16_exp_series_terminates : forall (eps : Q) (thr : Q -> Q), (forall s : Q, (eps <= thr s)%Q) ->
+  forall (no_scaling : bool) (r : Q) (N fuel : nat), (1 <= N)%nat -> (Qabs r * qpow (Qabs r) N < eps)%Q -> (N <= fuel)%nat ->
+  exp_series thr fuel no_scaling r <> None.
+Proof. exact exp_series_terminates. Qed.
+Print Assumptions C16_exp_series_terminates.
+
+Theorem C16_exp_series_terminates_explicit : forall (eps : Q) (thr : Q -> Q), (0 < eps)%Q -> (forall s : Q, (eps <= thr s)%Q) ->
+  forall (no_scaling : bool) (r : Q) (fuel : nat), (Qabs r <= 1 # 2)%Q -> (steps_half (Qabs r) eps <= fuel)%nat ->
+  exp_series thr fuel no_scaling r <> None.
+Proof. exact exp_series_terminates_explicit. Qed.
+Print Assumptions C16_exp_series_terminates_explicit.
+
+Theorem C16_exp_series_terminates_lt_1 : forall (eps : Q) (thr : Q -> Q), (0 < eps)%Q -> (forall s : Q, (eps <= thr s)%Q) ->
+  forall (no_scaling : bool) (r : Q) (fuel : nat), (Qabs r < 1)%Q -> (steps_geo (Qabs r) (Qabs r) eps <= fuel)%nat ->
+  exp_series thr fuel no_scaling r <> None.
+Proof. exact exp_series_terminates_lt_1. Qed.
+Print Assumptions C16_exp_series_terminates_lt_1.
